@@ -55,7 +55,7 @@ def main():
             r, o = sh("./check %s --tier quick --no-evidence" % pid, cwd=VERIF)
             rules = sorted(set(l.strip().split(":")[0] for l in o.splitlines() if l.startswith("  ") and ":" in l))
             return pid, r, rules, [l for l in o.splitlines() if l.startswith("  ")][:2]
-        with ThreadPoolExecutor(max_workers=9) as ex:
+        with ThreadPoolExecutor(max_workers=16) as ex:
             res = list(ex.map(one, PIDS))
     finally:
         sh("git -C /repo checkout -- . && git -C /repo clean -fdq -- pyscsi tools examples")      # (new files of the change are untracked: removed too)
